@@ -348,6 +348,75 @@ func idForms() int {
 	return n
 }
 
+// failingConn refuses the n-th Write call (1-based) without taking a byte, then works again: a write deadline that has
+// passed and is cleared, a temporary error.
+type failingConn struct {
+	chunkConn
+	failAt, calls int
+}
+
+func (c *failingConn) Write(p []byte) (int, error) {
+	c.calls++
+	if c.calls == c.failAt {
+		return 0, errors.New("write failed: i/o timeout")
+	}
+	return c.chunkConn.Write(p)
+}
+
+// writeFaults: a message whose first write on the connection is refused outright is reported as an error and has not
+// been written; the messages written afterwards on the same stream are read back as exactly those messages — the
+// refused one must not turn up later. (A failure in the middle of a frame leaves a torn frame on the wire, which no
+// reader can repair: for those only "no panic, an error is returned" is demanded.)
+func writeFaults() int {
+	ctx := context.Background()
+	n := 0
+	for _, raw := range []bool{false, true} {
+		mk, kind := jsonrpc2.NewStream, "header stream"
+		if raw {
+			mk, kind = jsonrpc2.NewRawStream, "raw stream"
+		}
+		for i := range msgs {
+			for j := range msgs {
+				for failAt := 1; failAt <= 3; failAt++ {
+					n++
+					progress.Add(1)
+					first, second := msgs[i].mk(), msgs[j].mk()
+					c := &failingConn{failAt: failAt}
+					ws := mk(c)
+					_, err1 := ws.Write(ctx, first)
+					wireBefore := c.out.Len()
+					_, err2 := ws.Write(ctx, second)
+					replay := map[string]any{"stream": kind, "first": msgs[i].name, "second": msgs[j].name, "refused_write_call": failAt}
+					if failAt == 1 {
+						if err1 == nil {
+							run.Violation("write-fault", fmt.Sprintf("%s: the connection refused the write of %s, Write returned no error", kind, msgs[i].name), replay)
+							continue
+						}
+						if wireBefore != 0 || err2 != nil {
+							run.Violation("write-fault", fmt.Sprintf("%s: after a refused write of %s: %d bytes on the wire, the next Write returned %v", kind, msgs[i].name, wireBefore, err2), replay)
+							continue
+						}
+						rs := mk(&chunkConn{data: c.out.Bytes()})
+						m, _, err := rs.Read(ctx)
+						if err != nil || wire(m) != wire(second) {
+							got := "an error: " + fmt.Sprint(err)
+							if err == nil {
+								got = wire(m)
+							}
+							run.Violation("write-fault", fmt.Sprintf("%s: %s was refused by the connection, then %s was written: the peer reads %s", kind, msgs[i].name, msgs[j].name, got), replay)
+							continue
+						}
+						if _, _, err := rs.Read(ctx); err == nil {
+							run.Violation("write-fault", fmt.Sprintf("%s: %s was refused by the connection, then %s was written: the peer reads a further message", kind, msgs[i].name, msgs[j].name), replay)
+						}
+					}
+				}
+			}
+		}
+	}
+	return n
+}
+
 // frameSizes: one message whose body has every length up to 4 KiB (16 KiB) and around the larger sizes at which a
 // stream could switch strategy (8 KiB ... 128 KiB scratch buffers), written by the real streams, checked against the independent
 // frame parser and read back, each followed by a small message (a short frame makes the next one start early).
@@ -589,20 +658,24 @@ func (p *pipe) Write(b []byte) (int, error) {
 	}
 	p.writes++
 	p.fromConn = append(p.fromConn, b...)
+	// the peer can see the bytes before the writer's Write call has returned (a slow return, a descheduled writer)
+	vsched.Yield("pipe.write.return")
 	return len(b), nil
 }
 func (p *pipe) Close() error { p.closed = true; return nil }
 
 type matchScenario struct {
-	name      string
-	calls     int  // concurrent callers
-	notifiers int  // concurrent notifiers
-	waitFor   int  // the peer starts answering once this many calls have arrived
-	silentOn  int  // 1-based index (arrival order) of a call the peer never answers; 0 = answers all
-	cancel    int  // 1-based caller index whose context is cancelled by a canceller thread; 0 = none
-	peerNotes bool // the peer interleaves a notification before each response
-	dupe      bool // the peer answers the first call twice
-	peerCalls int  // the peer sends this many calls of its own at the start; the handler answers them asynchronously (as jsonrpc2.AsyncHandler does), each with the echo of its own parameters
+	name        string
+	calls       int  // concurrent callers
+	notifiers   int  // concurrent notifiers
+	waitFor     int  // the peer starts answering once this many calls have arrived
+	silentOn    int  // 1-based index (arrival order) of a call the peer never answers; 0 = answers all
+	cancel      int  // 1-based caller index whose context is cancelled by a canceller thread; 0 = none
+	peerNotes   bool // the peer interleaves a notification before each response
+	dupe        bool // the peer answers the first call twice
+	failNote    bool // the peer sends a notification for which the handler returns an error (the connection then fails)
+	closeBehind bool // the peer closes the connection right behind its last response (a server that exits after answering)
+	peerCalls   int  // the peer sends this many calls of its own at the start; the handler answers them asynchronously (as jsonrpc2.AsyncHandler does), each with the echo of its own parameters
 }
 
 type callResult struct {
@@ -623,6 +696,9 @@ func (sc matchScenario) build() (func(), func(*vsched.Exec) string, func() strin
 		handled := 0
 		conn.Go(ctx, func(ctx context.Context, reply jsonrpc2.Replier, req jsonrpc2.Request) error {
 			handled++
+			if req.Method() == "peer/fail" {
+				return errors.New("handler failed")
+			}
 			if req.Method() == "peer/call" {
 				// answered later, from another goroutine, after the read loop has moved on to the next message
 				params := append(json.RawMessage{}, req.Params()...)
@@ -730,6 +806,9 @@ func (sc matchScenario) build() (func(), func(*vsched.Exec) string, func() strin
 		for k := 0; k < sc.peerCalls; k++ {
 			send(map[string]any{"jsonrpc": "2.0", "id": fmt.Sprintf("p%d", k), "method": "peer/call", "params": map[string]any{"peer": k}})
 		}
+		if sc.failNote {
+			send(map[string]any{"jsonrpc": "2.0", "method": "peer/fail"})
+		}
 		if sc.peerCalls > 0 && sc.peerNotes {
 			send(map[string]any{"jsonrpc": "2.0", "method": "peer/note", "params": map[string]any{"n": 0}})
 		}
@@ -785,6 +864,12 @@ func (sc matchScenario) build() (func(), func(*vsched.Exec) string, func() strin
 					}
 					vsched.Yield("peer.sent")
 				}
+				if sc.closeBehind && answered >= sc.calls {
+					// every call has been answered: the peer goes away; the responses were sent before, each caller is
+					// owed its own
+					p.closed = true
+					return
+				}
 			}
 		})
 		vsched.Quiesce("settle")
@@ -807,6 +892,9 @@ func (sc matchScenario) build() (func(), func(*vsched.Exec) string, func() strin
 				continue
 			}
 			if r.err != nil {
+				if sc.failNote {
+					continue // the connection has failed: a call may end with the connection's error
+				}
 				if !(errors.Is(r.err, context.Canceled) && cancelled[i]) {
 					msg = fmt.Sprintf("WRONG-RESULT caller %d got error %v (its context cancelled: %v)", i, r.err, cancelled[i])
 					return
@@ -1036,6 +1124,7 @@ func main() {
 		run.Cov["framed_unit_sequences"] = framedSequences(run.Pick(3, 4))
 		run.Cov["frame_size_sweep_messages"] = frameSizes()
 		run.Cov["id_form_messages"] = idForms()
+		run.Cov["write_fault_sequences"] = writeFaults()
 	}
 	progress.Store(-1 << 40)
 
@@ -1048,6 +1137,8 @@ func main() {
 		{name: "2 callers, peer never answers the first arrival", calls: 2, waitFor: 1, silentOn: 1},
 		{name: "2 callers, peer answers the first call twice", calls: 2, waitFor: 2, dupe: true},
 		{name: "1 caller; the peer sends 2 calls of its own and a notification, answered asynchronously by the handler", calls: 1, waitFor: 1, peerCalls: 2, peerNotes: true},
+		{name: "2 callers, the peer answers both and closes the connection right behind the last response", calls: 2, waitFor: 1, closeBehind: true},
+		{name: "1 caller; the handler returns an error for a notification of the peer (the connection fails, nothing may panic)", calls: 1, waitFor: 1, failNote: true, silentOn: 1},
 	}
 	if run.Thorough() {
 		scenarios = append(scenarios,
